@@ -194,26 +194,30 @@ def histogram_keys(case, mr):
 
 
 CLAIM = {
-    'text': 'Coq theorems (Properties_C08.v) over the model of Groups::evalArguments. Whole-line form '
-            '(C08_group_is_members_on_their_parts, C08_group_member_standalone, '
-            'C08_group_accepts_what_members_accept; ArgH/GenSim.v + GroupsSim.v): for every group, every abstract '
-            'line and every legal spelling of it, the group evaluation returns normally exactly when every member '
-            'handler, evaluating alone its own part of the line, accepts it and passes its complete end-of-line '
-            'checks, and then the members end with the same destinations, pending constraints and handler-constraint '
-            'states as in stand-alone evaluation. Per step: an element is handled by the first member that knows it '
-            'and leaves every other member untouched (any number of members), an element unknown to all members is '
-            'rejected, the members\' key tables act as one table at definition time; the defects of the pinned group '
-            'evaluation are proved (C08_pinned_group_refuted, C08_free_value_routing) and were repaired. The equality '
-            'with ONE handler owning all arguments is false of the faithful model for abbreviations '
-            '(C08_group_abbrev_refuted, known finding group-abbrev-per-member). Tie: correspondence through the real '
-            'Groups singleton with the single-handler values as oracle.',
-    'note': 'partial: the whole-line theorems compare the group with its members evaluated one by one (grammar: keyed '
-            'uses; free values and positional arguments are covered by the correspondence and the routing witnesses '
-            'only); the comparison with one merged handler is the spec oracle of the correspondence, not a theorem, '
-            'and is false for cross-member abbreviations (known finding listed in known_findings.json)',
-    'technique': 'Coq proof (generic simulation spelled line = fold over uses instantiated with the member-state list, '
-                 'projection lemma by induction over the line, routing lemma by induction over the member list, '
-                 'end-check lemma, refutation witnesses by vm_compute) + model/implementation correspondence on '
-                 'partitioned configurations',
+    'text': 'Coq theorems (Properties_C08.v) over the model of Groups::evalArguments. THE PROPERTY as one theorem '
+            '(C08_group_equals_one_handler; ArgH/GenSim.v, GroupsSim.v, MergeProofs.v, GroupsMerge.v): for every group '
+            'whose members do not refer to each other, every line of uses named by keys and every spelling of it '
+            'that designates the same arguments in the group and in the single handler, the group accepts the line '
+            'exactly when the ONE handler owning all arguments and handler constraints accepts it, and every '
+            'destination ends with the same value. Proved through two unbounded simulations: group = each member on '
+            'its own part of the line (C08_group_is_members_on_their_parts, C08_group_accepts_what_members_accept, '
+            'C08_group_line_is_fold_of_uses incl. free values) and single handler = its blocks on their parts '
+            '(C08_one_handler_splits: the constraint container of the merged handler is an interleaving of the '
+            'members\' containers). Per step: routing to the first owner, unknown to all is rejected, shared keys are '
+            'refused at definition time; the defects of the pinned group evaluation are proved '
+            '(C08_pinned_group_refuted, C08_free_value_routing) and were repaired. For abbreviations that resolve '
+            'differently per member the equality is false of the faithful model (C08_group_abbrev_refuted, known '
+            'finding group-abbrev-per-member) - exactly the spellings the hypothesis of the theorem excludes. Tie: '
+            'correspondence through the real Groups singleton with the single-handler values as oracle.',
+    'note': 'hypotheses of the main theorem: keyed uses (free values / positional arguments are covered by '
+            'C08_group_line_is_fold_of_uses, the routing witnesses and the tie), handler constraints all_of / any_of / '
+            'one_of (value constraints differ / disjoint address arguments by position: tie only), requires / '
+            'excludes / handler constraints that stay inside a member (each member has its own constraint '
+            'container); one known finding (cross-member abbreviations) listed in known_findings.json',
+    'technique': 'Coq proof (generic simulation spelled line = fold over uses instantiated with the member-state list; '
+                 'projection lemma by induction over the line; decomposition of a single handler into independent '
+                 'blocks with the pending-constraint container as an interleaving, iterated over the member list; '
+                 'refutation witnesses by vm_compute) + model/implementation correspondence on partitioned '
+                 'configurations',
     'design_ref': 'DESIGN.md section 5, C08',
 }
